@@ -53,6 +53,9 @@ def gen_case(rng):
     # scan followed by initialize hands out up to 2n addresses; the range
     # is never exhausted (exhaustion is outside the statement)
     hi = lo + 2 * n + slack - 1
+    if mode == "two-masters":
+        # each master hands out addresses from its own half of the range
+        hi = lo + 2 * (2 * n + slack) - 1
     pre = {}
     used = set()
     for i in range(n):
